@@ -185,8 +185,24 @@ class MultiArr(Value):
         self.mult, self.n = mult, n
 
 
+f_cast = z3.Function('CastTo', z3.RealSort(), z3.IntSort(), z3.RealSort())     # value after conversion to dtype #k
+
+
 def install(T: Theory):
     IX.install(T)
+
+    @T.ext('jax.numpy.asarray', 'jax.numpy.array')
+    def _asarray(interp, x, dtype=None, **kw):
+        """jnp.asarray(x[, dtype]): x itself without dtype or with its own dtype; otherwise a CONVERSION, which changes the
+        value in general (rounding to a narrower float, truncation to an integer): uninterpreted CastTo(value, dtype)"""
+        if not isinstance(x, PtV):
+            raise Unsupported('jnp.asarray of something else than an array element (point facet)')
+        if dtype is None or dtype is x.dtype or (isinstance(dtype, Ext) and isinstance(x.dtype, Ext) and dtype.path == x.dtype.path):
+            return x
+        interp.used_externals.add('jnp.asarray(x, dtype): value conversion')
+        import zlib
+        code = zlib.crc32(str(getattr(dtype, 'path', repr(dtype))).encode()) % 1000003
+        return PtV(f_cast(to_real(x.term), z3.IntVal(code)), dtype)
 
     @T.ext('jax.numpy.round')
     def _round(interp, x, decimals=0):
